@@ -125,8 +125,8 @@ static void dump(void)
   /* representation level (private fields) */
   printf("p alloc=%u", topo->nr_cpukinds_allocated);
   for (i = 0; i < (int) topo->nr_cpukinds; i++)
-    printf(" %d:forced=%d:rank=%llx", i, topo->cpukinds[i].forced_efficiency,
-           (unsigned long long) topo->cpukinds[i].ranking_value);
+    printf(" %d:forced=%d:rank=%llx:arr=%d", i, topo->cpukinds[i].forced_efficiency,
+           (unsigned long long) topo->cpukinds[i].ranking_value, topo->cpukinds[i].infos.array != NULL);
   putchar('\n');
   fflush(stdout);
 }
